@@ -264,6 +264,7 @@ def run(ctx):
              f"states above it, are entered again although they are active", l)
     # ---- R9 the exit set is the domain's subtree, narrowed to the target's region under a parallel domain ----
     shared.exit_set_scope(ctx, "R9")
+    shared.exit_set_anchored_on_target(ctx, "R9")
     # ---- R8 the exit set is scoped with separator-carrying id tests (frame: sibling regions untouched) ----
     shared.dotted_id_tests(ctx, "R8")
     # twin agreement for the pairs (C03 depends on it) is checked under C05.R1
